@@ -102,6 +102,14 @@ func runCase(p payload) (o outcome) {
 			return
 		}
 	}
+	if p.Kind == "host-function-panics" {
+		for _, name := range hostPanicNames {
+			if err := s.Add(name, &tengo.UserFunction{Name: name, Value: hostPanics[name]}); err != nil {
+				o.discard = "input rejected"
+				return
+			}
+		}
+	}
 	if p.MaxAllocs > 0 {
 		s.SetMaxAllocs(p.MaxAllocs)
 	}
@@ -443,8 +451,52 @@ func smallInt(t *rapid.T, label string) string {
 		"(-9223372036854775807 - 1)", "63", "64", "65", "1 << 40"}).Draw(t, label)
 }
 
+// hostPanics: functions of the embedding program that panic - with every kind
+// of panic value - when a script calls them. RunContext runs the VM on its own
+// goroutine and has to turn all of them into an error it returns.
+type privateSentinel struct{ code int }
+
+var hostPanics = map[string]tengo.CallableFunc{
+	"hp_string": func(args ...tengo.Object) (tengo.Object, error) { panic("host function panics with a string") },
+	"hp_error":  func(args ...tengo.Object) (tengo.Object, error) { panic(errors.New("host function panics with an error")) },
+	"hp_int":    func(args ...tengo.Object) (tengo.Object, error) { panic(42) },
+	"hp_struct": func(args ...tengo.Object) (tengo.Object, error) { panic(privateSentinel{7}) },
+	"hp_ptr":    func(args ...tengo.Object) (tengo.Object, error) { panic(&privateSentinel{8}) },
+	"hp_nilmap": func(args ...tengo.Object) (tengo.Object, error) {
+		var m map[string]int
+		m["x"] = 1 // runtime.Error
+		return nil, nil
+	},
+	"hp_index": func(args ...tengo.Object) (tengo.Object, error) { return args[len(args)+3], nil },
+	"hp_object": func(args ...tengo.Object) (tengo.Object, error) { panic(&tengo.Int{Value: 1}) },
+}
+
+var hostPanicNames = []string{"hp_error", "hp_index", "hp_int", "hp_nilmap", "hp_object", "hp_ptr", "hp_string", "hp_struct"}
+
+func hostPanicSource(t *rapid.T) string {
+	f := rapid.SampledFrom(hostPanicNames).Draw(t, "hostPanic")
+	call := f + "(1, \"a\")"
+	switch rapid.IntRange(0, 5).Draw(t, "hostPanicCtx") {
+	case 0:
+		return "r := " + call + "\n"
+	case 1:
+		return "f := func() { return " + call + " }\nr := f()\n"
+	case 2:
+		return "r := 0\nfor i := 0; i < 3; i++ { r = " + call + " }\n"
+	case 3:
+		return "g := func(cb) { return cb(2) }\nr := g(" + f + ")\n"
+	case 4:
+		return "r := [1, 2, " + call + "]\n"
+	default:
+		return "r := is_error(" + call + ") || true\n"
+	}
+}
+
 func hostileSource(t *rapid.T) (kind, src string) {
-	k := rapid.IntRange(0, 21).Draw(t, "tpl")
+	k := rapid.IntRange(0, 22).Draw(t, "tpl")
+	if k == 22 {
+		return "host-function-panics", hostPanicSource(t)
+	}
 	switch k {
 	case 0:
 		// runaway recursion with l locals and m pending operands per frame
